@@ -2,6 +2,7 @@
 namespace Larking.Expected.C19
 
 def conds_ruleSelector_getRules : List String := [
+   "func (*ruleSelector) getRules(name string) (rules []*annotations.HttpRule)",
    "if name == \"\"",
    "return append(rules, r.exact...)",
    "if r = r.path[tag]; r != nil",
@@ -9,7 +10,14 @@ def conds_ruleSelector_getRules : List String := [
    "return rules"
   ]
 
+def stmts_ruleSelector_getRules : List String := [
+   "rules = append(rules, r.rules...)",
+   "tag, name, _ := strings.Cut(name, \".\")",
+   "r = r.path[tag]"
+  ]
+
 def conds_ruleSelector_setRules : List String := [
+   "func (*ruleSelector) setRules(rules []*annotations.HttpRule)",
    "range rules",
    "switch tag",
    "case \"*\"",
@@ -18,6 +26,32 @@ def conds_ruleSelector_setRules : List String := [
    "default",
    "if rs == nil",
    "if r.path == nil"
+  ]
+
+def stmts_ruleSelector_setRules : List String := [
+   "*r = ruleSelector{}",
+   "var set func(…)",
+   "set = func(…)",
+   "func-literal",
+   "tag, name, _ := strings.Cut(selector, \".\")",
+   "panic(fmt.Errorf(\"invalid selector %q\", rule.GetSelector()))",
+   "r.rules = append(r.rules, rule)",
+   "r.exact = append(r.exact, rule)",
+   "rs := r.path[tag]",
+   "rs = &ruleSelector{}",
+   "r.path = make(map[string]*ruleSelector)",
+   "r.path[tag] = rs",
+   "r = rs",
+   "set(r, name)",
+   "set(r, rule.GetSelector())"
+  ]
+
+def conds_AddHealthz : List String := [
+   "<missing>"
+  ]
+
+def stmts_AddHealthz : List String := [
+   "<missing>"
   ]
 
 end Larking.Expected.C19
